@@ -35,6 +35,12 @@ def run_one(mut, tier='quick', verbose=False):
         if s.count(mut['old']) != 1:
             return {'id': mut['id'], 'status': 'STALE', 'detail': 'old text occurs %d times' % s.count(mut['old'])}
         open(p, 'w').write(s.replace(mut['old'], mut['new']))
+        for (f2, old2, new2) in mut.get('extra', ()):
+            p2 = os.path.join(d, f2)
+            s2 = open(p2).read()
+            if s2.count(old2) != 1:
+                return {'id': mut['id'], 'status': 'STALE', 'detail': 'extra old text occurs %d times' % s2.count(old2)}
+            open(p2, 'w').write(s2.replace(old2, new2))
         res = {}
         registered = _registered()
         for prop in mut['props']:
